@@ -15,7 +15,7 @@ import (
 func init() {
 	register(&PropSpec{
 		ID:       "C01",
-		Patterns: append(codecPatterns(), "./pkg/filter/network/streamproxy"),
+		Patterns: append(codecPatterns(), "./pkg/filter/network/streamproxy", "./pkg/stream/http2"),
 		Explanation: "(R1) layout agreement: the decoder's map field -> (wire offset, width), read off the stores into the frame header, equals the encoder's map computed by summing the widths of its straight-line WriteByte/WriteUint16/32/64 sequence; the request-id patch of the fast path hits that field's offset and width; the fixed header length equals the bytes written; class/header/content are cut at H, H+class, H+class+header and written in that order. " +
 			"(R2) no aliasing: nothing derived by slicing from the connection read buffer's Bytes() is stored into a frame field, wrapped by NewIoBufferBytes or published through variable.Set (copy/Write/string() are the barriers). " +
 			"(R3) the fast path returns the retained buffer only under every dirty bit the frame's mutators write (or the mutators drop the retained bytes), and writes nothing but the id patch into retained memory. " +
@@ -37,6 +37,8 @@ func runC01(c *Ctx) {
 	c.Rule("C01.R5", "TCP relay forwards a clone, drains after write, remote close flushes", 6)
 	c.Rule("C01.R6", "HTTP/1: nothing parses the URI of the outgoing request (fasthttp would rebuild the request line normalised)", 2)
 	defer c01HTTPRequestLine(c)
+	c.Rule("C01.R7", "HTTP/2 body chunks are copied out of the connection read buffer, never wrapped or kept", 2)
+	defer c01H2BodyCopied(c)
 	c.NotDecided = append(c.NotDecided, "HTTP/1.1 and HTTP/2 method/URI/header/body fidelity (runtime string values)", "tars byte identity (always re-encoded through TarsGo)", "header.EncodeHeader/DecodeHeader inverse property (dependency)")
 	c.Assumptions = append(c.Assumptions, "IoBuffer.Bytes() is a view of the buffer's array; Write/Clone/copy copy (mosn.io/pkg/buffer/iobuffer.go)", "passing wire bytes to TarsGo/thrift/hessian readers does not retain them in the frame")
 
